@@ -10,7 +10,7 @@ git apply "$patch" || { echo "patch does not apply"; exit 2; }
 trap 'git -C /repo checkout -- . ' EXIT
 cd /verif
 for c in "$@"; do
-  out=$(/venv/bin/python -B -m vmc "$c" --tier "$tier" 2>&1); rc=$?
+  out=$(timeout -k 5 900 /venv/bin/python -B -m vmc "$c" --tier "$tier" 2>&1); rc=$?
   echo "== $name $c $tier rc=$rc: $(echo "$out" | grep -c '^VIOLATION') violation lines"
   echo "$out" | grep -E "^  oracle=" | awk '{print $1}' | sort | uniq -c | head -8
 done
